@@ -14,6 +14,7 @@ EXPLANATION = (
     "released proxy reconnects before its next send; one thread per oneway request; only construction and the per-request increment "
     "write the sequence counter; the server remembers the request's flags/seq/serializer before anything in the guarded region can fail. "
     'Also decided: at most one reply per request and a failed receive leaves handleRequest; the 6-byte prefix is read and validated before the rest of the header; a missing CommunicationError handler in _pyroInvoke is a violation. '
+    'Also decided (round 7): A _RemoteMethod (which captures the retry budget) is built per access and returned or called, never stored. '
     "Not decided: execution counts under fault scripts, what the transport delivers."
 )
 
